@@ -464,6 +464,9 @@ func (g *gen) behC06() M {
 	steps = append(steps, send(M{"t": "S"}))
 	cfg := g.deadCtx(baseCfg())
 	g.customCache(cfg, steps, 0.25)
+	if g.chance(0.04) {
+		cfg["parser"] = "nil" // a server built without a parse function refuses Query and Parse like any failing message
+	}
 	return M{"cfg": cfg, "steps": steps}
 }
 
